@@ -681,6 +681,8 @@ func init() {
 						j /= 4
 						return fmt.Sprintf("%s In(list of %d values of one type with %s at position class %d, %s)", mgrName(i%2 == 1), k, pool[int(j)/len(pool)].label, w, pool[int(j)%len(pool)].label)
 					}},
+				{Name: "hash-twin-operands", N: 5 * 2 * 4 * 4 * 2, Run: c06Twins,
+					Repr: func(i int64) string { return fmt.Sprintf("two calls on one manager with numeric string operands that share a hash value (#%d)", i) }},
 				{Name: "laws", N: n * n * 2, Run: func(c *fw.Ctx, i int64) { c06Laws(c, pool, i) },
 					Repr: func(i int64) string {
 						return fmt.Sprintf("%s relational laws on (%s, %s)", mgrName(i%2 == 1), pool[int(i/2)/len(pool)].label, pool[int(i/2)%len(pool)].label)
@@ -749,6 +751,52 @@ func c06WideIn(c *fw.Ctx, pool []poolVal, i int64) {
 		c.Nontrivial()
 	}
 	c.Outcome(fmt.Sprintf("In:%s:%s", tn(elem.Type()), ref.kind))
+}
+
+// ---- two operator calls on ONE manager whose second operands are numeric strings colliding under a
+// usual hash function: the second call must give what a fresh manager gives
+
+func c06Twins(c *fw.Ctx, i int64) {
+	tw := digitTwins()
+	if len(tw) == 0 {
+		c.Outcome("no-twins")
+		return
+	}
+	safe := i%2 == 1
+	i /= 2
+	ops := []string{"Add", "Equal", "Less", "Mul"}
+	op := ops[int(i)%len(ops)]
+	i /= int64(len(ops))
+	firsts := []func() *variants.Variant{
+		func() *variants.Variant { return variants.VariantFromDouble(0) },
+		func() *variants.Variant { return variants.VariantFromFloat(1) },
+		func() *variants.Variant { return variants.VariantFromLong(2) },
+		func() *variants.Variant { return variants.VariantFromInteger(3) },
+	}
+	mkFirst := firsts[int(i)%len(firsts)]
+	i /= int64(len(firsts))
+	p := tw[int(i/2)%len(tw)]
+	a, b := p.a, p.b
+	if i%2 == 1 {
+		a, b = b, a
+	}
+	m, fresh := opsManager(safe), opsManager(safe)
+	var r2, f2 *variants.Variant
+	var e2, fe2 error
+	pv := fw.Try(func() {
+		callBinary(m, op, mkFirst(), variants.VariantFromString(a))
+		r2, e2 = callBinary(m, op, mkFirst(), variants.VariantFromString(b))
+		f2, fe2 = callBinary(fresh, op, mkFirst(), variants.VariantFromString(b))
+	})
+	c.Eval(3)
+	if pv != nil {
+		c.Violation("operator-panics-on-twins", "%s %s(%s, %q) after the same call with %q panics: %s", mgrName(safe), op, variantStr(mkFirst()), b, a, panicShort(pv))
+		return
+	}
+	if outcomeStr(r2, e2, nil) != outcomeStr(f2, fe2, nil) {
+		c.Violation("operator-depends-on-previous-call:"+op, "%s manager: %s(%s, String %q) right after %s(%s, String %q) gives %s, a fresh manager gives %s (the two texts have the same %s hash)", mgrName(safe), op, variantStr(mkFirst()), b, op, variantStr(mkFirst()), a, outcomeStr(r2, e2, nil), outcomeStr(f2, fe2, nil), p.hash)
+	}
+	c.Nontrivial()
 }
 
 // ---- reused manager / operands mutated in place (differential against fresh objects)
